@@ -80,7 +80,7 @@ Definition obs_ok (r : node * list msg) (o : obs) : bool :=
 Definition candidates (P : params) (self : N) (nd : node) (e : xev) : list (node * list msg) :=
   let os := orders (akeys (c_esigs (pool nd))) in
   match e with
-  | XLNet from m => [local_step P self nd (LNet from m)]
+  | XLNet from m => [local_step P self nd (LNet from m false); local_step P self nd (LNet from m true)]
   | XLProc =>
       (* the order matters only after the head of msgC went into the pool *)
       match n_q nd with
